@@ -600,6 +600,13 @@ def simon_cases(tier, rng):
                 tab = simon_table(n, s, rng)
                 cases.append(dict(kind="simon", n=n, s=s, form="lookup", table=tab,
                                   src=f"def test(k: Qint[{n}]) -> Qint[{n}]:\n    l = {tab}\n    return l[k]", opt="default"))
+    # two-to-one functions whose result is NARROWER than the argument (compact coset maps)
+    cases.append(dict(kind="simon", n=2, s=2, form="compact", src="def test(k: Qint[2]) -> bool:\n    return k[0]", opt="default"))
+    cases.append(dict(kind="simon", n=2, s=1, form="compact", src="def test(k: Qint[2]) -> bool:\n    return k[1]", opt="default"))
+    cases.append(dict(kind="simon", n=2, s=3, form="compact", src="def test(k: Qint[2]) -> bool:\n    return k[0] ^ k[1]", opt="default"))
+    cases.append(dict(kind="simon", n=3, s=4, form="compact", src="def test(k: Qint[3]) -> Qint[2]:\n    return k & 3", opt="default"))
+    cases.append(dict(kind="simon", n=3, s=5, form="compact",
+                      src="def test(k: Qint[3]) -> Tuple[bool, bool]:\n    return (k[0] ^ k[2], k[1])", opt="default"))
     return cases
 
 
@@ -832,6 +839,18 @@ def declared_function_mismatch(c, r):
     black box's expressions evaluated in Python and against original_f."""
     n, kind, obs = r["n"], c["kind"], r["oracle"]
     qret = obs["ret"][1]
+    if c.get("form") == "compact":
+        # declared only as "two-to-one with period s": check exactly that on the expressions
+        vals = []
+        for x in range(1 << n):
+            env = eval_defs(obs, x)
+            vals.append(sum(1 << j for j, b in enumerate(qret) if env[b]))
+        for x in range(1 << n):
+            if vals[x] != vals[x ^ c["s"]]:
+                return f"expressions give {vals[x]} on {x} but {vals[x ^ c['s']]} on {x ^ c['s']}: not periodic with s = {c['s']}"
+            if sum(1 for y in range(1 << n) if vals[y] == vals[x]) != 2:
+                return f"value {vals[x]} is taken {sum(1 for y in range(1 << n) if vals[y] == vals[x])} times: not two-to-one"
+        return None
     for x in range(1 << n):
         env = eval_defs(obs, x)
         if kind == "dj":
